@@ -886,3 +886,13 @@ Proof.
   assert (Hr : 1 <= vrefs g) by lia.
   repeat split; auto. rewrite (e3 _ _ _ _ _ _ HE). destruct (vrefs g); [lia|reflexivity].
 Qed.
+
+(* ---- [bad = false] does NOT hold in every reachable state of the model as written: the model
+   makes the sender token of a request visible, and lets other threads issue mutex calls,
+   while the requesting thread is still inside read()/readwrite() (its first-group done() is
+   a separate work item).  Thread 1 drops that sender and destroys the mutex; the first
+   group's count reaches 0; thread 0 then runs done() on the destroyed group. *)
+Definition bad_witness : list (nat * cmd) :=
+  [(0, CReq KW); (1, CDropOp 0); (1, CStep false); (1, CDestroy); (1, CStep false); (0, CStep false)].
+Lemma rw_no_bad_refuted : exists sched, bad (fst (rw_run sched)) = true.
+Proof. exists bad_witness. vm_compute. reflexivity. Qed.
